@@ -297,47 +297,56 @@ def Ite(c, a, b):
     return mk('ite', (c, a, b), a.sort)
 
 
-def nleaves(t):
-    """number of leaves if t is a constant or an ite tree over constants
-    (counted without sharing, capped), else 0"""
-    if t._cases is not None:
-        return t._cases
+def casemap(t):
+    """{constant value: guard} if t is a constant or an ite DAG over constants
+    with at most MAXCASES distinct values, else None.  Memoised per node, so
+    shared sub-DAGs are visited once; guards are mutually exclusive."""
+    r = t._cases
+    if r is not None:
+        return r if r != 0 else None
     if t.op == 'const':
-        r = 1
+        r = {t.val: TRUE}
     elif t.op == 'ite':
-        a = nleaves(t.args[1])
-        b = nleaves(t.args[2]) if a else 0
-        r = a + b if (a and b and a + b <= MAXCASES) else 0
+        a = casemap(t.args[1])
+        b = casemap(t.args[2]) if a is not None else None
+        if a is None or b is None:
+            r = None
+        else:
+            c = t.args[0]
+            nc = Not(c)
+            r = {}
+            for v, g in a.items():
+                gg = And(c, g)
+                if gg is not FALSE:
+                    r[v] = gg
+            for v, g in b.items():
+                gg = And(nc, g)
+                if gg is FALSE:
+                    continue
+                if v in r:
+                    r[v] = Or(r[v], gg)
+                else:
+                    r[v] = gg
+            if len(r) > MAXCASES:
+                r = None
     else:
-        r = 0
-    t._cases = r
+        r = None
+    t._cases = r if r is not None else 0
     return r
 
 
-def cases(t):
-    """[(path condition, python value)] if t is an ite tree over constants
-    with at most MAXCASES leaves (equal values fused), else None"""
-    if not nleaves(t):
-        return None
-    out = {}
-    order = []
+def nleaves(t):
+    m = casemap(t)
+    return len(m) if m is not None else 0
 
-    def walk(x, conds):
-        if x.op == 'const':
-            g = And(*conds) if conds else TRUE
-            if g is FALSE:
-                return
-            if x.val in out:
-                out[x.val] = Or(out[x.val], g)
-            else:
-                out[x.val] = g
-                order.append(x.val)
-            return
-        c = x.args[0]
-        walk(x.args[1], conds + [c])
-        walk(x.args[2], conds + [Not(c)])
-    walk(t, [])
-    return [(out[v], v) for v in order]
+
+def cases(t):
+    """[(guard, python value)] (exclusive guards, equal values fused) if t is
+    an ite DAG over at most MAXCASES distinct constants, else None"""
+    m = casemap(t)
+    if m is None:
+        return None
+    return [(g, v) for v, g in m.items()]
 
 
 def from_cases(cs, sort):
